@@ -371,27 +371,29 @@ theorem fragment_table_roundtrip (c : Codec) (noComp : Bool) (img : Dev) (loc fr
     readFragTable c img fragStart ents.length = some ents :=
   readFragTable_written c noComp img loc fragStart ents hwf hT hI h64
 
-/-- the id table reads back for at most 16384 ids (`readUidsGids` computes the number of metadata
-    blocks in uint16: right up to 16384 ids; at 16385 ids nine blocks are needed and one is read) -/
+/-- the id table reads back, for any number of ids (`readUidsGids` counts the metadata blocks in
+    int since fix 0ff62c2; the uint16 arithmetic it replaced gave 1 block for 16385 ids, nine are
+    needed and nine are read) -/
 theorem id_table_roundtrip (c : Codec) (noComp : Bool) (img : Dev) (loc idStart : Nat) (ids : List Nat)
-    (hwf : ∀ x ∈ ids, x < 2 ^ 32) (hn : ids.length ≤ 16384)
+    (hwf : ∀ x ∈ ids, x < 2 ^ 32)
     (hT : HoldsAt img loc (metaTable c noComp (metaChunks (idStream ids))))
     (hI : HoldsAt img idStart (lookupIndex c noComp loc (metaChunks (idStream ids))))
     (h64 : loc + (metaTable c noComp (metaChunks (idStream ids))).length < 2 ^ 64) :
-    readIdTable c img idStart ids.length = ids ∧ (idBlocks 16385 = 1 ∧ (16385 * 4 + 8191) / 8192 = 9) :=
-  ⟨readIdTable_written c noComp img loc idStart ids hwf hn hT hI h64, id_blocks_wrap⟩
+    readIdTable c img idStart ids.length = ids ∧
+    (idBlocks 16385 = 9 ∧ ((16385 * 4) % 65536 + 65535) % 65536 / 8192 + 1 = 1) :=
+  ⟨readIdTable_written c noComp img loc idStart ids hwf hT hI h64, id_blocks_16385⟩
 
 /-- **block counts of the two-level lookup tables.**  For every number of entries: the number of
     index pointers `readFragmentTable` takes (count/512, one more if count%512 > 0) is exactly the
     number of metadata blocks `writeFragmentTable` cut, ⌈16·n / 8192⌉ — so an exact multiple of 512
-    fragments has n/512 blocks, not one more; for 1..16384 ids the count `readUidsGids` computes in
-    uint16 is the number of blocks `writeIDTable` cut, ⌈4·n / 8192⌉ (from 16385 ids on it is not:
-    recorded finding sqfs-idtable-uint16-blockcount) -/
+    fragments has n/512 blocks, not one more; for n ≥ 1 ids the count `readUidsGids` computes is the
+    number of blocks `writeIDTable` cut, ⌈4·n / 8192⌉ (before fix 0ff62c2 it was not from 16385 ids
+    on: finding sqfs-idtable-uint16-blockcount) -/
 theorem lookup_table_block_counts :
     (∀ ents : List FragEnt,
       ents.length / 512 + (if ents.length % 512 > 0 then 1 else 0) = (metaChunks (fragStream ents)).length ∧
       (metaChunks (fragStream ents)).length = (16 * ents.length + 8191) / 8192) ∧
-    (∀ ids : List Nat, 0 < ids.length → ids.length ≤ 16384 →
+    (∀ ids : List Nat, 0 < ids.length →
       idBlocks ids.length = (metaChunks (idStream ids)).length ∧
       (metaChunks (idStream ids)).length = (4 * ids.length + 8191) / 8192) ∧
     (∀ k, 512 * k / 512 + (if 512 * k % 512 > 0 then 1 else 0) = k) :=
@@ -535,7 +537,7 @@ example : fileBytes rle exDev3 4 [⟨1, 4, false⟩] (mkBody rle exOpt exEnt 0 (
     walk of the file list: every path, every decoded inode, the owner ids and, for regular files,
     the contents.  `Limits` are the stated limits: every inode at most 8 KiB, the whole directory
     table inside one metadata block and not empty (listings beyond the first block are the
-    recorded finding sqfs-dir-startblock-index), at most 16384 owner ids, kinds file / directory /
+    recorded finding sqfs-dir-startblock-index), at most 65535 owner ids, kinds file / directory /
     symlink, every directory reachable from the root, and the numeric field bounds (`WF`) of the
     built inodes, entries, fragment entries and superblock. -/
 theorem writer_reader_roundtrip (c : Codec) (o : WOpt) (fl : List FEnt) (fuel : Nat) (L : Limits c o fl fuel)
